@@ -595,7 +595,7 @@ func writeEvidence(prop, tier string, seed int, reps []*harnessReport, known, in
 			obligations += a.Checked
 			discharged += a.Discharged + a.ConcreteOK
 			samples = append(samples, map[string]interface{}{"harness": r.H.Name, "assert": id, "paths_checked": a.Checked,
-				"solver_unsat": a.Discharged, "concretely_true": a.ConcreteOK, "violated": a.Violated, "unknown": a.Unknown, "bug_hunting_unknown": a.HuntUnknown})
+				"solver_unsat": a.Discharged, "concretely_true": a.ConcreteOK, "violated": a.Violated, "unknown": a.Unknown, "bug_hunting_unknown": a.HuntUnknown, "cross_confirmed": a.CrossConfirmed, "cross_unknown": a.CrossUnknown})
 		}
 	}
 	if len(samples) == 0 {
